@@ -66,23 +66,24 @@ type harnessRun struct {
 	name string
 	pkg  string // sub-package: ast, boltz, ...
 
-	mu          sync.Mutex
-	paths       int
-	outcomes    map[string]int
-	decisions   int
-	steps       int
-	discharged  int
-	unknowns    int
-	reached     map[string]int
-	violations  []interp.Violation
-	perLabel    map[string]int
-	problems    []problem // unsupported / unwound paths
-	witness     []interp.ReplayValue
-	haveWitness bool
-	stubs       map[string]bool
-	outside     map[string]int
-	budgetHit   bool
-	maxInputs   int
+	mu               sync.Mutex
+	paths            int
+	outcomes         map[string]int
+	decisions        int
+	steps            int
+	discharged       int
+	solverDischarged int
+	unknowns         int
+	reached          map[string]int
+	violations       []interp.Violation
+	perLabel         map[string]int
+	problems         []problem // unsupported / unwound paths
+	witness          []interp.ReplayValue
+	haveWitness      bool
+	stubs            map[string]bool
+	outside          map[string]int
+	budgetHit        bool
+	maxInputs        int
 }
 
 type problem struct {
@@ -110,6 +111,7 @@ type runner struct {
 		time                     time.Duration
 	}
 	testBins    map[string]string
+	cross       *interp.CrossCheck
 	deadline    time.Time
 	deadlineHit bool
 	binMu       sync.Mutex
@@ -189,7 +191,16 @@ func newRunner(tierName string, verbose bool) (*runner, error) {
 			r.active[k.ID] = true
 		}
 	}
-	r.cfg = interp.Config{StepCap: 3_000_000, DepthCap: 400, ActiveKnown: r.active, Tier: r.tier}
+	r.cross = &interp.CrossCheck{Every: 400, Solvers: []string{"z3-new", "cvc5"}, TimeoutMs: 60000}
+	if r.tier == 1 {
+		r.cross.Every = 100
+	}
+	if s := os.Getenv("VERIF_CROSS_EVERY"); s != "" {
+		if n, err := strconv.Atoi(s); err == nil {
+			r.cross.Every = n
+		}
+	}
+	r.cfg = interp.Config{StepCap: 3_000_000, DepthCap: 400, ActiveKnown: r.active, Tier: r.tier, Cross: r.cross}
 	r.pathCap = 400_000
 	budget := 20 * time.Minute
 	if r.tier == 1 {
@@ -359,6 +370,7 @@ func (r *runner) absorb(h *harnessRun, res *interp.PathResult) {
 	h.decisions += res.Decisions - res.Forced
 	h.steps += res.Steps
 	h.discharged += res.Discharged
+	h.solverDischarged += res.SolverDischarged
 	h.unknowns += res.Unknowns
 	if res.Inputs > h.maxInputs {
 		h.maxInputs = res.Inputs
